@@ -1,36 +1,62 @@
-"""C02 — no UB / no allocation / no out-of-range access.  Own legs (allocation trap, default-initialised
-objects) + aggregation: the ASan+UBSan builds of the other packages' harnesses are run on their quick case
-sets and must agree with the extracted models case by case (a sanitizer abort shows up as `crash`)."""
+"""C02 — no UB / no allocation / no out-of-range access.  Own legs (allocation counter over operation batteries,
+constant-evaluator run of the constexpr batteries, default-initialised objects over 0xFF-poisoned storage) +
+aggregation: the sanitizer builds that the other packages declare for their harnesses are run on those packages'
+case sets and must agree with the extracted models case by case (a sanitizer abort shows up as `crash`)."""
 import concurrent.futures
 import random
 import time
 
 ID = "C02"
 LEVEL = "proof"
+SAN = ["-fsanitize=address,undefined", "-fno-sanitize-recover=all", "-fno-omit-frame-pointer"]
 HARNESSES = [
     {"name": "main", "src": "harness.cpp", "flags": ["-O1", "-DTETL_ENABLE_CONTRACT_CHECKS=1"]},
     {"name": "nochecks", "src": "harness.cpp", "flags": ["-O2"]},
+    # the same batteries and probes under ASan+UBSan (the allocation interposers are compiled out: ASan owns malloc)
+    {"name": "san", "src": "harness.cpp", "flags": ["-O1", "-g0", "-DC02_SAN=1", "-DTETL_ENABLE_CONTRACT_CHECKS=1"] + SAN},
 ]
-RULE = ("own legs: 8 operation batteries x seeds under an allocation counter; 13 object kinds default-initialised over 0xFF-poisoned storage; "
-        "aggregated legs: every case of the listed packages' quick generators re-run under ASan+UBSan (-fno-sanitize-recover=all) and "
-        "compared with the extracted model (a sanitizer report = `crash` = disagreement); non-trivial = distinct case")
+N_BATTERIES = 16
+N_CE = 12
+KINDS = ("sv_int", "sv_nt", "iv_int", "iv_nt", "str7", "str15", "str16", "str255", "str256", "wstr7", "wstr16",
+         "string_view", "wstring_view", "span", "span_static0", "mdspan", "static_set", "flat_set", "flat_multiset", "stack",
+         "optional", "optional_nt", "variant", "expected", "bitset", "bitset8", "bitset64", "inplace_function", "pair", "tuple",
+         "extents", "duration")
+RULE = ("own legs: %d operation batteries (vectors, inplace_vector, strings in both layouts and three character types, views on "
+        "non-terminated arrays, mutating / non-mutating / numeric algorithms with exact-fit outputs, charconv with exact-fit and "
+        "empty buffers, sets, optional/variant/expected, bitset and <bit>, span/mdspan/mdarray, pair/tuple/callable wrappers, "
+        "chrono, cstring/cctype/cstdlib/cwchar, stack/iterators/uninitialised-memory algorithms) x seeds under an allocation "
+        "counter (replaced operator new + interposed malloc family), the same under ASan+UBSan (variant san); %d constexpr "
+        "batteries x 3 seeds evaluated by GCC's constant evaluator at compile time (UB there = the harness does not build) and "
+        "compared with their run-time values; %d object kinds default-initialised over 0xFF-poisoned storage; "
+        "aggregated legs: the cases of the listed packages' generators re-run under the sanitizer variant the package declares "
+        "(-fno-sanitize-recover / trap) and compared with the extracted model (a sanitizer report = `crash` = disagreement); "
+        "non-trivial = distinct case" % (N_BATTERIES, N_CE, len(KINDS)))
 TRUSTED_BASE = ["ASan/UBSan runtime of g++ 12 (what they can see: heap/stack/global out-of-bounds, misaligned/null access, signed overflow, "
-                "invalid shifts; NOT intra-object overflow, NOT uninitialised reads — those are covered by the model's checked accesses only)",
+                "invalid shifts; NOT intra-object overflow, NOT uninitialised reads — those are covered by the models' checked accesses "
+                "and, for the constexpr batteries, by GCC's constant evaluator)",
+                "GCC 12 constant evaluator as UB oracle for the constexpr batteries (fixed inputs: seeds 0, 1, 7)",
                 "allocation counter: replaced operator new/delete + interposed malloc/calloc/realloc"]
 ASSUMPTIONS = ["memory safety of the compiled object code beyond the models' index/initialisation/overflow discipline is sanitizer-observed, not proved"]
 
-# packages whose prop.py declares a harness variant named "asan"
-AGGREGATE = ["C01", "C04", "C06a", "C06b", "C08", "C09", "C10", "C17", "C18", "C19", "C07", "C20", "C12", "C14", "C03"]
-MAX_CASES = {"quick": 12000, "thorough": 400000}
-SLOW = {"C17": 3000}   # sanitizer harnesses that fork per case: fewer cases in the quick tier
+# every package with a model; the sanitizer variant is discovered from the package's own prop.py (see _pick_variant)
+AGGREGATE = ["C01", "C03", "C04", "C06a", "C06b", "C07", "C08", "C09", "C10", "C11", "C12", "C14", "C17", "C18", "C19", "C20"]
+# quick tier: cases sampled per package (the thorough tier runs the package's whole quick AND thorough generators)
+QUICK_CASES = {"C01": 2500, "C06a": 6000, "C08": 6000, "C10": 4000, "C14": 6000, "C17": 400, "C18": 6000, "C19": 3000, "C07": 1500}
+QUICK_DEFAULT = 4000
+THOROUGH_CASES = 400000
+# sanitizer variants a package marks thorough_only are built and run by the thorough tier only, except these (cheap build)
+QUICK_ALSO = {"C17"}
 
 
 def gen(tier, rng):
     out = []
-    for which in range(0, 8):
-        for seed in (range(0, 3) if tier == "quick" else range(0, 50)):
+    for which in range(0, N_BATTERIES):
+        for seed in (range(0, 3) if tier == "quick" else range(0, 40)):
             out.append(f"noalloc {which} {seed}")
-    for t in ("sv_int", "sv_nt", "iv_int", "iv_nt", "str7", "str16", "str255", "string_view", "span", "static_set", "flat_set", "optional", "bitset"):
+    for which in range(0, N_CE):
+        for idx in range(0, 3):
+            out.append(f"noalloc_ce {which} {idx}")
+    for t in KINDS:
         out.append(f"default_init {t}")
     return out
 
@@ -39,23 +65,45 @@ def nontrivial(case, impl):
     return True
 
 
+def _sanitizer_flags(h):
+    return [f for f in h.get("flags", []) if f.startswith("-fsanitize=")]
+
+
+def _pick_variant(prop):
+    """the sanitizer variant a package declares: prefers address+undefined, then address, then any -fsanitize= variant that
+    is not the package's first (main) harness"""
+    hs = list(getattr(prop, "HARNESSES", []))
+    cands = [h for h in hs[1:] if _sanitizer_flags(h)] + [h for h in hs[:1] if h.get("name") in ("asan", "san", "ubsan")]
+    def rank(h):
+        fl = " ".join(_sanitizer_flags(h))
+        return (0 if ("address" in fl and "undefined" in fl) else 1 if "address" in fl else 2 if "undefined" in fl else 3,
+                1 if h.get("thorough_only") else 0)
+    cands.sort(key=rank)
+    return cands[0] if cands else None
+
+
 def _one_package(pid, tier, seed):
     from vlib import engine
     t0 = time.time()
-    res = {"package": pid, "cases": 0, "crash": 0, "disagree": 0, "skipped": None, "wall_s": 0, "examples": []}
+    res = {"package": pid, "variant": None, "sanitizers": None, "cases": 0, "crash": 0, "disagree": 0, "skipped": None,
+           "wall_s": 0, "examples": []}
     try:
         prop = engine.load_prop(pid)
     except Exception as e:  # noqa
         res["skipped"] = f"no package ({e})"
         return res
-    hs = [h for h in getattr(prop, "HARNESSES", []) if h["name"] == "asan" or "-fsanitize=address,undefined" in " ".join(h.get("flags", []))]
-    if not hs:
-        res["skipped"] = "package declares no ASan+UBSan harness variant"
+    h = _pick_variant(prop)
+    if h is None:
+        res["skipped"] = "package declares no sanitizer harness variant"
         return res
-    h = hs[0]
+    res["variant"] = h["name"]
+    res["sanitizers"] = " ".join(_sanitizer_flags(h))
+    if tier == "quick" and h.get("thorough_only") and pid not in QUICK_ALSO:
+        res["skipped"] = f"variant {h['name']} is thorough_only in props/{pid}/prop.py: built and run by ./check C02 --tier thorough"
+        return res
     exe, log = engine.build_harness(pid, h["name"], h["src"], h["flags"], h.get("compiler", "g++"))
     if exe is None:
-        res["skipped"] = "asan harness does not compile: " + log[-400:]
+        res["skipped"] = "sanitizer harness does not compile: " + log[-400:]
         res["build_failed"] = True
         return res
     try:
@@ -65,15 +113,23 @@ def _one_package(pid, tier, seed):
         return res
     rng = random.Random(seed * 1000003 + 17)
     cases = engine.load_corpus(pid) + list(prop.gen("quick", rng))
-    cap = MAX_CASES["quick" if tier == "quick" else "thorough"]
-    if tier == "quick" and pid in SLOW:
-        cap = SLOW[pid]
+    if tier != "quick":
+        seen = set(cases)
+        for c in prop.gen("thorough", random.Random(seed * 1000003 + 18)):
+            if c not in seen:
+                seen.add(c)
+                cases.append(c)
+    cap = QUICK_CASES.get(pid, QUICK_DEFAULT) if tier == "quick" else THOROUGH_CASES
+    res["generated"] = len(cases)
     if len(cases) > cap:
         r2 = random.Random(seed + 5)
         cases = r2.sample(cases, cap)
-    _, il, _ = engine.run_bin(exe, cases, args=h.get("args", ()), extra_env=h.get("env"), timeout=1500)
-    _, ml, _ = engine.run_bin(driver, cases, extra_env=h.get("env"), timeout=1500)
+    _, il, _ = engine.run_bin(exe, cases, args=h.get("args", ()), extra_env=h.get("env"), timeout=3000)
+    _, ml, _ = engine.run_bin(driver, cases, extra_env=h.get("env"), timeout=3000)
     known_ops = {o for k in engine.load_known(pid) for o in k.get("ops", [])}
+    if len(il) != len(cases) or len(ml) != len(cases):
+        res["disagree"] += 1
+        res["examples"].append({"case": "(run incomplete)", "impl_asan": f"{len(il)} lines", "model": f"{len(ml)} lines", "known_op": False})
     for c, a, b in zip(cases, il, ml):
         e = engine.split_legs(a)[0]
         m = engine.split_legs(b)[0]
@@ -93,22 +149,25 @@ def _one_package(pid, tier, seed):
 def extra_checks(ctx):
     items = []
     results = []
-    with concurrent.futures.ThreadPoolExecutor(max_workers=8) as ex:
+    with concurrent.futures.ThreadPoolExecutor(max_workers=4) as ex:
         futs = [ex.submit(_one_package, pid, ctx.tier, ctx.seed) for pid in AGGREGATE]
         for f in futs:
             results.append(f.result())
     ctx.evidence = {"aggregated_sanitizer_runs": results,
                     "aggregated_cases": sum(r["cases"] for r in results),
-                    "components_without_model": ["format", "random", "complex arithmetic", "linalg arithmetic", "mutex", "scope", "ranges", "experimental/*"]}
+                    "packages_without_sanitizer_variant": [r["package"] for r in results if r["skipped"] and "declares no" in r["skipped"]],
+                    "components_without_model": ["format", "random", "complex arithmetic", "linalg arithmetic", "mutex", "scope", "ranges",
+                                                 "experimental/*", "to_floating_point / from_floating_point"]}
     for r in results:
         if r.get("build_failed"):
             items.append({"kind": "violation", "found_input": False,
-                          "payload": {"kind": "sanitizer harness no longer builds against /repo/include", "no_longer_checks": f"ASan+UBSan correspondence of package {r['package']}", "detail": r["skipped"]}})
+                          "payload": {"kind": "sanitizer harness no longer builds against /repo/include", "no_longer_checks": f"sanitizer correspondence of package {r['package']}", "detail": r["skipped"]}})
         elif r["disagree"]:
             ex0 = r["examples"][0]
             items.append({"kind": "violation", "found_input": True,
                           "payload": {"kind": "sanitizer build disagrees with the model (UB / out-of-range access / overflow observed, or behaviour changed)",
-                                      "package": r["package"], "case": ex0["case"], "impl": ex0["impl_asan"], "model": ex0["model"],
+                                      "package": r["package"], "variant": r["variant"], "case": ex0["case"], "impl": ex0["impl_asan"], "model": ex0["model"],
+                                      "more": r["examples"][1:],
                                       "disagreeing_cases": r["disagree"], "crashes": r["crash"], "replay_hint": f"./check {r['package']} --tier thorough"}})
         elif r["skipped"]:
             items.append({"kind": "note", "text": f"{r['package']}: {r['skipped']}"})
